@@ -10,7 +10,7 @@ SPEC = {
         "C08_offline_is_disable_list", "C08_offline_list_shape", "C08_table_rules_wellformed",
         "C08_table_lists_satisfy_premises", "C08_nonvacuous",
         "C08_offline_runs_no_online_check", "C08_offline_keeps_offline_checks", "C08_checks_run_in_declared_states",
-        "C08_states_table", "C08_offline_nonvacuous"]},
+        "C08_states_table", "C08_offline_flag_end_to_end", "C08_offline_nonvacuous"]},
     "harness_args": lambda tier: ["C08", "--n", 32 if tier == "quick" else 450],
     "search_args": lambda tier: ["C08", "--n", 150],
     "level": "proof",
